@@ -7,27 +7,27 @@ Import ListNotations.
 Require Import PyBase Solver SolverFacts Linker LinkerFacts LinkerFacts2 LinkerFacts3 LinkerFacts4.
 Open Scope Z_scope.
 
-Ltac guards_passed Hmm Hg :=
-  cbv zeta; rewrite (linker_solve_t_guards_passed _ _ _ _ _ _ _ _ _ _ _ _ _ _ Hmm Hg).
-
 Theorem unknown_id_KeyError_M :
   forall (num : Type) (sub : num -> num -> num) (absf : num -> num) (ltb : num -> num -> bool) (zero : num)
          (sev : sid -> hook num) (pre ebefore eafter post : lhook num)
          (sel : option (list sid)) (o : opts num) (t : Z) (s : lstate num)
          (before : list sid) (bad : sid) (after : list sid) (cur : list (list num)) (subs1 : list (sid * comp num)),
+    forall (s_call : lstate num),                      (* the state solve_t is called on *)
     min_iter o <= max_iter o ->                        (* both guards passed: not rejected with ValueError ... *)
-    linker_infeasible (c_desc (l_core s)) (length (status (c_st (l_core s)))) t = false ->     (* ... nor with IndexError *)
+    linker_infeasible (c_desc (l_core s_call)) (length (status (c_st (l_core s_call)))) t = false ->     (* ... nor with IndexError *)
+    (* s = the state after the offset seeding (s = s_call when offset = 0; Linker.seeded otherwise) *)
+    linker_seed num zero (sel_ids num sel s_call) o t s_call = (s, None) ->
     sel_ids num sel s = before ++ bad :: after ->
     find_sub num bad (l_subs s) = None ->
     get_check_values num zero (sel_ids num sel s) t s = inl cur ->
     zero_iters num before t (l_subs s) = (subs1, None) ->
-    linker_solve_t_M num sub absf ltb zero sev pre ebefore eafter post sel o t s
+    linker_solve_t_M num sub absf ltb zero sev pre ebefore eafter post sel o t s_call
     = (mkL (l_core s) subs1 (l_log s), LRaise (LExn KeyError)).
 Proof.
   intros num sub absf ltb zero sev pre ebefore eafter post.
   intros.
   repeat match goal with x := _ |- _ => subst x end.
-  rewrite (linker_solve_t_guards_passed num sub absf ltb zero sev pre ebefore eafter post sel o t s H H0).
+  rewrite (linker_solve_t_seeded num sub absf ltb zero sev pre ebefore eafter post sel o t s_call s H H0 H1).
   eapply unknown_id_KeyError; eassumption.
 Qed.
 
@@ -36,15 +36,18 @@ Theorem solve_t_quiet_spec_M :
          (sev : sid -> hook num) (pre ebefore eafter post : lhook num)
          (sel : option (list sid)) (o : opts num) (t : Z) (s : lstate num)
          (c0 : list (list num)) (subs1 : list (sid * comp num)) (s1 : lstate num),
+    forall (s_call : lstate num),                      (* the state solve_t is called on *)
     min_iter o <= max_iter o ->                        (* both guards passed: not rejected with ValueError ... *)
-    linker_infeasible (c_desc (l_core s)) (length (status (c_st (l_core s)))) t = false ->     (* ... nor with IndexError *)
+    linker_infeasible (c_desc (l_core s_call)) (length (status (c_st (l_core s_call)))) t = false ->     (* ... nor with IndexError *)
+    (* s = the state after the offset seeding (s = s_call when offset = 0; Linker.seeded otherwise) *)
+    linker_seed num zero (sel_ids num sel s_call) o t s_call = (s, None) ->
     let ids := sel_ids num sel s in
     let N := Z.to_nat (max_iter o) in
     get_check_values num zero ids t s = inl c0 ->
     zero_iters num ids t (l_subs s) = (subs1, None) ->
     run_hook num pre ids o t 0%nat (LPre t) (mkL (l_core s) subs1 (l_log s)) = (s1, None) ->
     quiet_upto num sev ebefore eafter ids o t s1 N ->
-    linker_solve_t_M num sub absf ltb zero sev pre ebefore eafter post sel o t s =
+    linker_solve_t_M num sub absf ltb zero sev pre ebefore eafter post sel o t s_call =
     lfinish num o ids t
       (match find_first (lconvk num sub absf ltb zero sev ebefore eafter ids o t c0 s1) 1 N with
        | Some k0 => match run_hook num post ids o t k0 (LPost t k0) (lst_after num sev ebefore eafter ids o t s1 k0) with
@@ -57,7 +60,7 @@ Proof.
   intros num sub absf ltb zero sev pre ebefore eafter post.
   intros.
   repeat match goal with x := _ |- _ => subst x end.
-  rewrite (linker_solve_t_guards_passed num sub absf ltb zero sev pre ebefore eafter post sel o t s H H0).
+  rewrite (linker_solve_t_seeded num sub absf ltb zero sev pre ebefore eafter post sel o t s_call s H H0 H1).
   eapply solve_t_quiet_spec; eassumption.
 Qed.
 
@@ -66,15 +69,18 @@ Theorem linker_event_order_M :
          (sev : sid -> hook num) (pre ebefore eafter post : lhook num)
          (sel : option (list sid)) (o : opts num) (t : Z) (s : lstate num)
          (c0 : list (list num)) (subs1 : list (sid * comp num)) (s1 : lstate num),
+    forall (s_call : lstate num),                      (* the state solve_t is called on *)
     min_iter o <= max_iter o ->                        (* both guards passed: not rejected with ValueError ... *)
-    linker_infeasible (c_desc (l_core s)) (length (status (c_st (l_core s)))) t = false ->     (* ... nor with IndexError *)
+    linker_infeasible (c_desc (l_core s_call)) (length (status (c_st (l_core s_call)))) t = false ->     (* ... nor with IndexError *)
+    (* s = the state after the offset seeding (s = s_call when offset = 0; Linker.seeded otherwise) *)
+    linker_seed num zero (sel_ids num sel s_call) o t s_call = (s, None) ->
     let ids := sel_ids num sel s in
     let N := Z.to_nat (max_iter o) in
     get_check_values num zero ids t s = inl c0 ->
     zero_iters num ids t (l_subs s) = (subs1, None) ->
     run_hook num pre ids o t 0%nat (LPre t) (mkL (l_core s) subs1 (l_log s)) = (s1, None) ->
     quiet_upto num sev ebefore eafter ids o t s1 N ->
-    l_log (fst (linker_solve_t_M num sub absf ltb zero sev pre ebefore eafter post sel o t s)) =
+    l_log (fst (linker_solve_t_M num sub absf ltb zero sev pre ebefore eafter post sel o t s_call)) =
     l_log s ++ [LPre t] ++
     match find_first (lconvk num sub absf ltb zero sev ebefore eafter ids o t c0 s1) 1 N with
     | Some k0 => flat_map (iter_events ids t) (seq 1 k0) ++ [LPost t k0]
@@ -84,7 +90,7 @@ Proof.
   intros num sub absf ltb zero sev pre ebefore eafter post.
   intros.
   repeat match goal with x := _ |- _ => subst x end.
-  rewrite (linker_solve_t_guards_passed num sub absf ltb zero sev pre ebefore eafter post sel o t s H H0).
+  rewrite (linker_solve_t_seeded num sub absf ltb zero sev pre ebefore eafter post sel o t s_call s H H0 H1).
   eapply linker_event_order; eassumption.
 Qed.
 
@@ -93,8 +99,11 @@ Theorem linker_converges_at_least_k_M :
          (sev : sid -> hook num) (pre ebefore eafter post : lhook num)
          (sel : option (list sid)) (o : opts num) (t : Z) (p : nat) (s : lstate num)
          (subs1 : list (sid * comp num)) (s1 : lstate num) (k0 : nat),
+    forall (s_call : lstate num),                      (* the state solve_t is called on *)
     min_iter o <= max_iter o ->                        (* both guards passed: not rejected with ValueError ... *)
-    linker_infeasible (c_desc (l_core s)) (length (status (c_st (l_core s)))) t = false ->     (* ... nor with IndexError *)
+    linker_infeasible (c_desc (l_core s_call)) (length (status (c_st (l_core s_call)))) t = false ->     (* ... nor with IndexError *)
+    (* s = the state after the offset seeding (s = s_call when offset = 0; Linker.seeded otherwise) *)
+    linker_seed num zero (sel_ids num sel s_call) o t s_call = (s, None) ->
     let ids := sel_ids num sel s in
     let N := Z.to_nat (max_iter o) in
     let c0 := check_vec num zero ids p s in
@@ -105,7 +114,7 @@ Theorem linker_converges_at_least_k_M :
     (forall k s', snd (run_hook num post ids o t k (LPost t k) s') = None) ->
     (1 <= k0 <= N)%nat -> lconvk num sub absf ltb zero sev ebefore eafter ids o t c0 s1 k0 = true ->
     (forall j, (1 <= j < k0)%nat -> lconvk num sub absf ltb zero sev ebefore eafter ids o t c0 s1 j = false) ->
-    let r := linker_solve_t_M num sub absf ltb zero sev pre ebefore eafter post sel o t s in
+    let r := linker_solve_t_M num sub absf ltb zero sev pre ebefore eafter post sel o t s_call in
     let s2 := fst (run_hook num post ids o t k0 (LPost t k0) (lst_after num sev ebefore eafter ids o t s1 k0)) in
     snd r = LRet true /\
     status (c_st (l_core (fst r))) = upd p Solved (status (c_st (l_core s))) /\
@@ -121,7 +130,7 @@ Proof.
   intros num sub absf ltb zero sev pre ebefore eafter post.
   intros.
   repeat match goal with x := _ |- _ => subst x end.
-  rewrite (linker_solve_t_guards_passed num sub absf ltb zero sev pre ebefore eafter post sel o t s H H0).
+  rewrite (linker_solve_t_seeded num sub absf ltb zero sev pre ebefore eafter post sel o t s_call s H H0 H1).
   eapply linker_converges_at_least_k; eassumption.
 Qed.
 
@@ -130,8 +139,11 @@ Theorem linker_fails_when_no_k_M :
          (sev : sid -> hook num) (pre ebefore eafter post : lhook num)
          (sel : option (list sid)) (o : opts num) (t : Z) (p : nat) (s : lstate num)
          (subs1 : list (sid * comp num)) (s1 : lstate num),
+    forall (s_call : lstate num),                      (* the state solve_t is called on *)
     min_iter o <= max_iter o ->                        (* both guards passed: not rejected with ValueError ... *)
-    linker_infeasible (c_desc (l_core s)) (length (status (c_st (l_core s)))) t = false ->     (* ... nor with IndexError *)
+    linker_infeasible (c_desc (l_core s_call)) (length (status (c_st (l_core s_call)))) t = false ->     (* ... nor with IndexError *)
+    (* s = the state after the offset seeding (s = s_call when offset = 0; Linker.seeded otherwise) *)
+    linker_seed num zero (sel_ids num sel s_call) o t s_call = (s, None) ->
     let ids := sel_ids num sel s in
     let N := Z.to_nat (max_iter o) in
     let c0 := check_vec num zero ids p s in
@@ -140,7 +152,7 @@ Theorem linker_fails_when_no_k_M :
     run_hook num pre ids o t 0%nat (LPre t) (mkL (l_core s) subs1 (l_log s)) = (s1, None) ->
     quiet_upto num sev ebefore eafter ids o t s1 N ->
     (forall j, (1 <= j <= N)%nat -> lconvk num sub absf ltb zero sev ebefore eafter ids o t c0 s1 j = false) ->
-    let r := linker_solve_t_M num sub absf ltb zero sev pre ebefore eafter post sel o t s in
+    let r := linker_solve_t_M num sub absf ltb zero sev pre ebefore eafter post sel o t s_call in
     let s2 := lst_after num sev ebefore eafter ids o t s1 N in
     snd r = (if fail_raise o then LRaise (LExn NonConvergenceError) else LRet false) /\
     status (c_st (l_core (fst r))) = upd p Failed (status (c_st (l_core s))) /\
@@ -156,7 +168,7 @@ Proof.
   intros num sub absf ltb zero sev pre ebefore eafter post.
   intros.
   repeat match goal with x := _ |- _ => subst x end.
-  rewrite (linker_solve_t_guards_passed num sub absf ltb zero sev pre ebefore eafter post sel o t s H H0).
+  rewrite (linker_solve_t_seeded num sub absf ltb zero sev pre ebefore eafter post sel o t s_call s H H0 H1).
   eapply linker_fails_when_no_k; eassumption.
 Qed.
 
@@ -165,8 +177,11 @@ Theorem linker_status_stamped_M :
          (sev : sid -> hook num) (pre ebefore eafter post : lhook num)
          (sel : option (list sid)) (o : opts num) (t : Z) (p : nat) (s : lstate num)
          (subs1 : list (sid * comp num)) (s1 : lstate num),
+    forall (s_call : lstate num),                      (* the state solve_t is called on *)
     min_iter o <= max_iter o ->                        (* both guards passed: not rejected with ValueError ... *)
-    linker_infeasible (c_desc (l_core s)) (length (status (c_st (l_core s)))) t = false ->     (* ... nor with IndexError *)
+    linker_infeasible (c_desc (l_core s_call)) (length (status (c_st (l_core s_call)))) t = false ->     (* ... nor with IndexError *)
+    (* s = the state after the offset seeding (s = s_call when offset = 0; Linker.seeded otherwise) *)
+    linker_seed num zero (sel_ids num sel s_call) o t s_call = (s, None) ->
     let ids := sel_ids num sel s in
     let N := Z.to_nat (max_iter o) in
     wf num t p s ->
@@ -174,7 +189,7 @@ Theorem linker_status_stamped_M :
     run_hook num pre ids o t 0%nat (LPre t) (mkL (l_core s) subs1 (l_log s)) = (s1, None) ->
     quiet_upto num sev ebefore eafter ids o t s1 N ->
     (forall k s', snd (run_hook num post ids o t k (LPost t k) s') = None) ->
-    let r := linker_solve_t_M num sub absf ltb zero sev pre ebefore eafter post sel o t s in
+    let r := linker_solve_t_M num sub absf ltb zero sev pre ebefore eafter post sel o t s_call in
     exists x k,
       nth_error (status (c_st (l_core (fst r)))) p = Some x /\
       nth_error (iters (c_st (l_core (fst r)))) p = Some (Z.of_nat k) /\
@@ -188,7 +203,7 @@ Proof.
   intros num sub absf ltb zero sev pre ebefore eafter post.
   intros.
   repeat match goal with x := _ |- _ => subst x end.
-  rewrite (linker_solve_t_guards_passed num sub absf ltb zero sev pre ebefore eafter post sel o t s H H0).
+  rewrite (linker_solve_t_seeded num sub absf ltb zero sev pre ebefore eafter post sel o t s_call s H H0 H1).
   eapply linker_status_stamped; eassumption.
 Qed.
 
@@ -197,13 +212,16 @@ Theorem linker_maxiter0_M :
          (sev : sid -> hook num) (pre ebefore eafter post : lhook num)
          (sel : option (list sid)) (o : opts num) (t : Z) (p : nat) (s : lstate num)
          (subs1 : list (sid * comp num)) (s1 : lstate num),
+    forall (s_call : lstate num),                      (* the state solve_t is called on *)
     min_iter o <= max_iter o ->                        (* both guards passed: not rejected with ValueError ... *)
-    linker_infeasible (c_desc (l_core s)) (length (status (c_st (l_core s)))) t = false ->     (* ... nor with IndexError *)
+    linker_infeasible (c_desc (l_core s_call)) (length (status (c_st (l_core s_call)))) t = false ->     (* ... nor with IndexError *)
+    (* s = the state after the offset seeding (s = s_call when offset = 0; Linker.seeded otherwise) *)
+    linker_seed num zero (sel_ids num sel s_call) o t s_call = (s, None) ->
     let ids := sel_ids num sel s in
     max_iter o <= 0 -> wf num t p s ->
     zero_iters num ids t (l_subs s) = (subs1, None) ->
     run_hook num pre ids o t 0%nat (LPre t) (mkL (l_core s) subs1 (l_log s)) = (s1, None) ->
-    let r := linker_solve_t_M num sub absf ltb zero sev pre ebefore eafter post sel o t s in
+    let r := linker_solve_t_M num sub absf ltb zero sev pre ebefore eafter post sel o t s_call in
     snd r = (if fail_raise o then LRaise (LExn NonConvergenceError) else LRet false) /\
     status (c_st (l_core (fst r))) = upd p Failed (status (c_st (l_core s))) /\
     iters (c_st (l_core (fst r))) = upd p 0 (iters (c_st (l_core s))) /\
@@ -216,7 +234,7 @@ Proof.
   intros num sub absf ltb zero sev pre ebefore eafter post.
   intros.
   repeat match goal with x := _ |- _ => subst x end.
-  rewrite (linker_solve_t_guards_passed num sub absf ltb zero sev pre ebefore eafter post sel o t s H H0).
+  rewrite (linker_solve_t_seeded num sub absf ltb zero sev pre ebefore eafter post sel o t s_call s H H0 H1).
   eapply linker_maxiter0; eassumption.
 Qed.
 
@@ -225,8 +243,11 @@ Theorem solved_iff_all_moved_lt_tol_M :
          (sev : sid -> hook num) (pre ebefore eafter post : lhook num)
          (sel : option (list sid)) (o : opts num) (t : Z) (p : nat) (s : lstate num)
          (subs1 : list (sid * comp num)) (s1 : lstate num),
+    forall (s_call : lstate num),                      (* the state solve_t is called on *)
     min_iter o <= max_iter o ->                        (* both guards passed: not rejected with ValueError ... *)
-    linker_infeasible (c_desc (l_core s)) (length (status (c_st (l_core s)))) t = false ->     (* ... nor with IndexError *)
+    linker_infeasible (c_desc (l_core s_call)) (length (status (c_st (l_core s_call)))) t = false ->     (* ... nor with IndexError *)
+    (* s = the state after the offset seeding (s = s_call when offset = 0; Linker.seeded otherwise) *)
+    linker_seed num zero (sel_ids num sel s_call) o t s_call = (s, None) ->
     let ids := sel_ids num sel s in
     let N := Z.to_nat (max_iter o) in
     wf num t p s ->
@@ -241,7 +262,7 @@ Theorem solved_iff_all_moved_lt_tol_M :
     let qualifies := fun k : nat =>
       (1 <= k <= N)%nat /\ min_iter o <= Z.of_nat k /\
       Forall2 (Forall2 (fun c q : num => ltb (absf (sub c q)) (tol o) = true)) (cv k) (cv (k - 1)%nat) in
-    let r := linker_solve_t_M num sub absf ltb zero sev pre ebefore eafter post sel o t s in
+    let r := linker_solve_t_M num sub absf ltb zero sev pre ebefore eafter post sel o t s_call in
     (snd r = LRet true <-> exists k, qualifies k) /\
     (forall k, qualifies k -> (forall j, (j < k)%nat -> ~ qualifies j) ->
        snd r = LRet true /\
@@ -255,7 +276,7 @@ Proof.
   intros num sub absf ltb zero sev pre ebefore eafter post.
   intros.
   repeat match goal with x := _ |- _ => subst x end.
-  rewrite (linker_solve_t_guards_passed num sub absf ltb zero sev pre ebefore eafter post sel o t s H H0).
+  rewrite (linker_solve_t_seeded num sub absf ltb zero sev pre ebefore eafter post sel o t s_call s H H0 H1).
   eapply solved_iff_all_moved_lt_tol; eassumption.
 Qed.
 
@@ -267,21 +288,22 @@ Section LEveryPath.
   Variable sev : sid -> hook num.
   Variables (pre ebefore eafter post : lhook num).
   Notation solve_t := (linker_solve_t_M num sub absf ltb zero sev pre ebefore eafter post).
+  Notation cases := (linker_solve_t_cases num sub absf ltb zero sev pre ebefore eafter post).
 
   Theorem solve_t_preserves_shape_M sel o t s : srel num (sel_ids num sel s) s (fst (solve_t sel o t s)).
   Proof.
-    destruct (linker_solve_t_cases num sub absf ltb zero sev pre ebefore eafter post sel o t s) as [E|[E|(_ & _ & E)]]; rewrite E;
-      [apply srel_refl|apply srel_refl|apply solve_t_preserves_shape].
+    destruct (cases sel o t s) as [(e & _ & E)|(s0 & _ & _ & ES & E)]; rewrite E; [apply srel_refl|].
+    eapply srel_trans; [eapply linker_seed_srel; exact ES|].
+    rewrite <- (linker_seed_sel_ids num zero sel _ o t s s0 ES). apply solve_t_preserves_shape.
   Qed.
 
   Theorem unselected_never_evaluated_M sel o t s id :
     selected (sel_ids num sel s) id = false ->
     exists evs, l_log (fst (solve_t sel o t s)) = l_log s ++ evs /\ forall t' k, ~ In (LSub id t' k) evs.
   Proof.
-    intros Hun.
-    destruct (linker_solve_t_cases num sub absf ltb zero sev pre ebefore eafter post sel o t s) as [E|[E|(_ & _ & E)]]; rewrite E;
-      [exists []; split; [symmetry; apply app_nil_r|intros ? ? []]|exists []; split; [symmetry; apply app_nil_r|intros ? ? []]|
-       apply unselected_never_evaluated; exact Hun].
+    intros Hun. destruct (solve_t_preserves_shape_M sel o t s) as (_ & _ & evs & Hl & HF).
+    exists evs. split; [exact Hl|]. intros t' k Hin.
+    rewrite Forall_forall in HF. specialize (HF _ Hin). cbn [ev_ok] in HF. congruence.
   Qed.
 
   Theorem unselected_not_restamped_M sel o t s i id c :
@@ -289,19 +311,22 @@ Section LEveryPath.
     exists v, nth_error (l_subs (fst (solve_t sel o t s))) i = Some (id, with_cvals num c v).
   Proof.
     intros Hn Hs.
-    destruct (linker_solve_t_cases num sub absf ltb zero sev pre ebefore eafter post sel o t s) as [E|[E|(_ & _ & E)]]; rewrite E;
-      [exists (vals_of (c_st c)); rewrite with_cvals_eta; exact Hn|exists (vals_of (c_st c)); rewrite with_cvals_eta; exact Hn|
-       eapply unselected_not_restamped; eauto].
+    destruct (cases sel o t s) as [(e & _ & E)|(s0 & _ & _ & ES & E)]; rewrite E.
+    - exists (vals_of (c_st c)). rewrite with_cvals_eta. exact Hn.
+    - eapply unselected_not_restamped; [eapply linker_seed_unselected; eauto|].
+      rewrite (linker_seed_sel_ids num zero sel _ o t s s0 ES). exact Hs.
   Qed.
 
+  (* ... and, when no hook writes to it, untouched altogether — the offset seeding does not touch it either *)
   Theorem unselected_untouched_M sel o t s i id c :
     nth_error (l_subs s) i = Some (id, c) -> selected (sel_ids num sel s) id = false ->
     hook_keeps num i pre -> hook_keeps num i ebefore -> hook_keeps num i eafter -> hook_keeps num i post ->
     nth_error (l_subs (fst (solve_t sel o t s))) i = Some (id, c).
   Proof.
     intros Hn Hs K1 K2 K3 K4.
-    destruct (linker_solve_t_cases num sub absf ltb zero sev pre ebefore eafter post sel o t s) as [E|[E|(_ & _ & E)]]; rewrite E;
-      [exact Hn|exact Hn|apply unselected_untouched; assumption].
+    destruct (cases sel o t s) as [(e & _ & E)|(s0 & _ & _ & ES & E)]; rewrite E; [exact Hn|].
+    apply unselected_untouched; try assumption; [eapply linker_seed_unselected; eauto|].
+    rewrite (linker_seed_sel_ids num zero sel _ o t s s0 ES). exact Hs.
   Qed.
 End LEveryPath.
 
